@@ -418,6 +418,7 @@ type Run struct {
 type Case struct {
 	ID     string
 	Script string
+	Again  string `json:",omitempty"` // a second script the same evaluator is prepared with after the runs (which are then repeated)
 	Opt    bool
 	Vars   []struct {
 		Name string
@@ -443,6 +444,9 @@ func (c *Case) Sexp() string {
 		opt = 1
 	}
 	fmt.Fprintf(&sb, "(case %s (script %s) (opt %d)", c.ID, hx(c.Script), opt)
+	if c.Again != "" {
+		sb.WriteString(" (again " + hx(c.Again) + ")")
+	}
 	if len(c.Vars) > 0 {
 		sb.WriteString(" (vars")
 		for _, v := range c.Vars {
